@@ -85,17 +85,11 @@ auto gemm_n(Context&& ctxt, typename It2DA::element alpha, It2DA a_first, Size a
 
 	if(a_count == 0) { return c_first; }
 
-	if      ((*a_first).stride()==1 && (*b_first).stride()==1 && (*c_first).stride()==1) {
-	                            {CTXT->gemm('C', 'N', (*c_first).size(), a_count, (*a_first).size(), &alpha, underlying(b_first.base()), (*b_first).stride(), a_first.base(), (*a_first).size()  , &beta, c_first.base(), c_first.stride());}
-	}else if((*a_first).stride()==1 && b_first. stride()==1 && (*c_first).stride()==1){
+	if      ((*a_first).stride()==1 && b_first. stride()==1 && (*c_first).stride()==1){
 		                        {CTXT->gemm('C', 'N', (*c_first).size(), a_count, (*a_first).size(), &alpha, underlying(b_first.base()), legal_ld((*b_first).stride(), (*a_first).size()), a_first.base(), legal_ld(a_first.stride(), (*a_first).size()), &beta, c_first.base(), legal_ld(c_first.stride(), (*c_first).size()));}
-	}else if((*a_first).stride()==1 && b_first. stride()==1 && c_first. stride()==1){
-								{CTXT->gemm('C', 'N', (*c_first).size(), a_count, (*a_first).size(), &alpha, underlying(b_first.base()), (*b_first).stride(), a_first.base(), a_first. stride(), &beta, c_first.base(), (*c_first).stride());}
-	}else if(a_first. stride()==1 && b_first. stride()==1 && c_first. stride()==1){
-								{CTXT->gemm('C', 'T', (*c_first).size(), a_count, (*a_first).size(), &alpha, underlying(b_first.base()), (*b_first).stride(), a_first.base(), (*a_first).stride(), &beta, c_first.base(), (*c_first).stride());}
 	}else if(a_first. stride()==1 && b_first. stride()==1 && (*c_first).stride()==1){
 								{CTXT->gemm('C', 'T', (*c_first).size(), a_count, (*a_first).size(), &alpha, underlying(b_first.base()), legal_ld((*b_first).stride(), (*a_first).size()), a_first.base(), legal_ld((*a_first).stride(), a_count), &beta, c_first.base(), legal_ld(c_first.stride(), (*c_first).size()));}
-	}else{assert(0);}  // NOLINT(cppcoreguidelines-pro-bounds-array-to-pointer-decay,hicpp-no-array-decay)
+	}else{throw std::logic_error{"not BLAS-implemented"};}  // the other layout combinations of A*conj(B) have no xGEMM expression  // NOLINT(cppcoreguidelines-pro-bounds-array-to-pointer-decay,hicpp-no-array-decay)
 
 	return c_first + a_count;
 }
